@@ -224,14 +224,28 @@ def rule_wiring(ctx):
         # "no id was given" follows the constructor's own convention: a keyword passed as None is NOT given (it is dropped by
         # the base constructor, which then falls back to a random UUIDv4) -- a bare membership test takes id=None for an id
         kw = init.kwarg or "kwargs"
-        accepted = ("%s.get('id') is None" % kw, "not %s.get('id')" % kw, "%s.get('id') in (None, [])" % kw, "%s.get('id') == None" % kw)
+        # the base constructor's own "not given" set, read from its  `if <value> not in (<absent values>):`  test
+        base_init = prog.func("stix2.base::_STIXBase.__init__")
+        absent = None
+        for t_ in [x for x in body_walk(base_init.node) if isinstance(x, ast.Compare) and len(x.ops) == 1 and isinstance(x.ops[0], ast.NotIn)
+                   and isinstance(x.comparators[0], (ast.Tuple, ast.List)) and isinstance(getattr(x, "parent", None), ast.If)]:
+            vals = sorted(norm(e) for e in t_.comparators[0].elts)
+            if "None" in vals:
+                absent = vals
+        if absent is None:
+            raise AnalysisError("_STIXBase.__init__: the 'not given' test (`not in (None, [])`) was not found")
+        if absent == ["None"]:
+            accepted = ("%s.get('id') is None" % kw, "%s.get('id') == None" % kw)
+        else:
+            accepted = ("%s.get('id') in (%s)" % (kw, ", ".join(p_)) for p_ in __import__("itertools").permutations(absent))
+            accepted = tuple(accepted) + ("not %s.get('id')" % kw,)
         ok = ok and len(gc) == 1 and gc[0][1] and gc[0][0] in accepted
     run.check(ok, R, key(rel, init.qualname, "generate-under-no-id"),
-              "the deterministic id is not generated exactly when no id was given (None counts as not given, as everywhere in the "
-              "constructor), after the base constructor: File(name='x', id=None) -- or parsed content with \"id\": null -- gets a "
-              "random UUIDv4 although contributing properties are present", file=rel,
+              "the deterministic id is not generated exactly when no id was given -- by the base constructor's OWN notion of 'not "
+              "given' (None and [] are dropped there and the random default is used): File(name='x', id=None) / id=[] -- or parsed "
+              "content with \"id\": null / [] -- gets a random UUIDv4 although contributing properties are present", file=rel,
               line=init.node.lineno, function=init.qualname,
-              expected="super().__init__(**kwargs); if kwargs.get('id') is None: id_ = self._generate_id()",
+              expected="super().__init__(**kwargs); if kwargs.get('id') in (None, []): id_ = self._generate_id()",
               found=short(init.node, 200))
     # every JSON array form is made serialisable element by element: a tuple is written as an array by the encoder, so it must
     # be hashed as one (falling into the "other value -> its JSON text as a string" branch hashes "[1, 2]" instead of [1,2])
